@@ -21,44 +21,46 @@ SameLabels(arrs, skip) ==
   \A i \in 1..Len(arrs) : \A k \in 1..NDim(arrs[1]) :
      arrs[1].dims[k] # skip => arrs[i].labs[DimPos(arrs[i], arrs[1].dims[k])] = arrs[1].labs[k]
 
+\* cells of several arrays (same shape apart from the first dimension) put one after the other = joining along the first dimension
+CatCells(xs) == FlattenSeq([i \in 1..Len(xs) |-> xs[i].cells])
+RECURSIVE CatLabs(_, _)
+CatLabs(xs, p) == IF xs = <<>> THEN <<>> ELSE xs[1].labs[p] \o CatLabs(Tail(xs), p)
+AnyFloat(xs) == \E i \in 1..Len(xs) : xs[i].dtype = "f"
+
 Stack(arrs, newdim, keys, align, sort) ==
   IF ~SameDimSet(arrs) THEN Outc(FALSE, <<>>, "ValueError", FALSE, <<>>)
   ELSE LET ro == [i \in 1..Len(arrs) |-> Reorder(arrs[i], arrs[1].dims)]
-           al == IF align THEN Align(ro, "outer", sort, <<>>) ELSE [arrs |-> ro, free |-> <<>>]
-           xs == al.arrs
-           n == Len(xs)
        IN IF ~align /\ ~SameLabels(ro, "") THEN Outc(FALSE, <<>>, "ValueError", FALSE, <<>>)
-          ELSE Outc(TRUE,
-                   Mk(<<newdim>> \o xs[1].dims, <<"i">> \o xs[1].kinds, <<keys>> \o xs[1].labs, <<0>> \o xs[1].aattrs,
-                      IF \E i \in 1..n : xs[i].dtype = "f" THEN "f" ELSE xs[1].dtype, 0,
-                      LAMBDA c : At(xs[c[1]], Tail(c))),
-                   "", ~SameOrder(arrs), al.free)
+          ELSE LET al == IF align THEN Align(ro, "outer", sort, <<>>) ELSE [arrs |-> ro, free |-> <<>>]
+                   xs == al.arrs
+               IN Outc(TRUE,
+                       [dims |-> <<newdim>> \o xs[1].dims, kinds |-> <<"i">> \o xs[1].kinds, labs |-> <<keys>> \o xs[1].labs,
+                        aattrs |-> <<0>> \o xs[1].aattrs, dtype |-> IF AnyFloat(xs) THEN "f" ELSE xs[1].dtype, attrs |-> 0,
+                        cells |-> CatCells(xs)],
+                       "", ~SameOrder(arrs), al.free)
 
-\* concatenate along dimension d (a name of the first array)
+\* concatenate along dimension d (a name of the first array): bring d to the front, join the cells, bring it back
 Concat(arrs, d, align, sort) ==
   IF ~SameDimSet(arrs) THEN Outc(FALSE, <<>>, "ValueError", FALSE, <<>>)
   ELSE LET ro == [i \in 1..Len(arrs) |-> Reorder(arrs[i], arrs[1].dims)]
-           others == SelectSeq(arrs[1].dims, LAMBDA x : x # d)
-           RECURSIVE AlignDims(_, _)
-           AlignDims(as, k) == IF k > Len(others) THEN [arrs |-> as, free |-> <<>>]
-                               ELSE LET one == Align(as, "outer", sort, <<others[k]>>)
-                                        rest == AlignDims(one.arrs, k + 1)
-                                    IN [arrs |-> rest.arrs, free |-> one.free \o rest.free]
-           al == IF align THEN AlignDims(ro, 1) ELSE [arrs |-> ro, free |-> <<>>]
-           xs == al.arrs
-           n == Len(xs)
-           p == DimPos(xs[1], d)
-           lens == [i \in 1..n |-> Len(xs[i].labs[p])]
-           start(i) == LET RECURSIVE S(_) S(j) == IF j = 0 THEN 0 ELSE lens[j] + S(j - 1) IN S(i - 1)
-           owner(q) == CHOOSE i \in 1..n : start(i) < q /\ q <= start(i) + lens[i]
-           RECURSIVE Cat(_)
-           Cat(i) == IF i = 0 THEN <<>> ELSE Cat(i - 1) \o xs[i].labs[p]
        IN IF ~align /\ ~SameLabels(ro, d) THEN Outc(FALSE, <<>>, "ValueError", FALSE, <<>>)
-          ELSE Outc(TRUE,
-                   Mk(xs[1].dims, xs[1].kinds, [xs[1].labs EXCEPT ![p] = Cat(n)], [k \in 1..NDim(xs[1]) |-> 0],
-                      IF \E i \in 1..n : xs[i].dtype = "f" THEN "f" ELSE xs[1].dtype, 0,
-                      LAMBDA c : LET i == owner(c[p]) IN At(xs[i], [c EXCEPT ![p] = c[p] - start(i)])),
-                   "", ~SameOrder(arrs), al.free)
+          ELSE LET others == SelectSeq(arrs[1].dims, LAMBDA x : x # d)
+                   RECURSIVE AlignDims(_, _)
+                   AlignDims(as, k) == IF k > Len(others) THEN [arrs |-> as, free |-> <<>>]
+                                       ELSE LET one == Align(as, "outer", sort, <<others[k]>>)
+                                                rest == AlignDims(one.arrs, k + 1)
+                                            IN [arrs |-> rest.arrs, free |-> one.free \o rest.free]
+                   al == IF align THEN AlignDims(ro, 1) ELSE [arrs |-> ro, free |-> <<>>]
+                   xs == al.arrs
+                   n == NDim(xs[1])
+                   p == DimPos(xs[1], d)
+                   front == <<p>> \o SelectSeq([k \in 1..n |-> k], LAMBDA k : k # p)          \* perm: d first
+                   back == [k \in 1..n |-> IF k = p THEN 1 ELSE IF k < p THEN k + 1 ELSE k]   \* inverse perm
+                   fs == [i \in 1..Len(xs) |-> Transpose(xs[i], front)]
+                   joined == [fs[1] EXCEPT !.labs[1] = CatLabs(fs, 1), !.cells = CatCells(fs),
+                                           !.aattrs = [k \in 1..n |-> 0], !.attrs = 0,
+                                           !.dtype = IF AnyFloat(xs) THEN "f" ELSE xs[1].dtype]
+               IN Outc(TRUE, Transpose(joined, back), "", ~SameOrder(arrs), al.free)
 
 (* ---------- scenarios ---------- *)
 XM == {<<2, 4>>, <<4, 2>>, <<4, 6>>, <<6, 8>>}            \* equal / permuted / overlapping / disjoint w.r.t. <<2,4>>
@@ -77,6 +79,18 @@ ChooseArrays ==
               /\ in' = [NoIn EXCEPT !.arrs = [k \in 1..n |-> Arr(IF flip[k] THEN <<"y", "x">> ELSE <<"x", "y">>, xs[k], ys[k], k)]]
        ELSE \E m \in {n, 3} : \E xs \in [1..m -> XM] : in' = [NoIn EXCEPT !.arrs = [k \in 1..m |-> Arr(<<"x">>, xs[k], <<>>, k)]]
 
+\* cube-shaped 3-d inputs whose later member lists the dimensions in any of the 6 orders (a positional mix-up is shape-compatible)
+Perm3 == {p \in [1..3 -> 1..3] : \A i, j \in 1..3 : i # j => p[i] # p[j]}
+Lab3(d, variant) == CASE d = "x" -> <<2, 4>> [] d = "y" -> (IF variant THEN <<6, 2>> ELSE <<2, 6>>) [] d = "z" -> <<4, 2>>
+Arr3(p, variant, k) ==
+  LET names == <<"x", "y", "z">>
+      dims == [i \in 1..3 |-> names[p[i]]]
+  IN Fresh(dims, <<"i", "i", "i">>, [i \in 1..3 |-> Lab3(dims[i], variant)], <<1, 2, 3>>, "i", k, 100 * k)
+ChooseArrays3 ==
+  /\ ph = 0 /\ ph' = 1 /\ out' = out
+  /\ \E p \in Perm3 : \E variant \in BOOLEAN :
+       in' = [NoIn EXCEPT !.arrs = <<Arr3(<<1, 2, 3>>, FALSE, 1), Arr3(p, variant, 2)>>]
+
 ChooseOp ==
   /\ ph = 1 /\ ph' = 2 /\ out' = out
   /\ \E al \in BOOLEAN : \E so \in BOOLEAN :
@@ -91,7 +105,7 @@ Apply ==
             THEN Stack(in.arrs, in.newdim, in.keys, in.align, in.sort)
             ELSE Concat(in.arrs, in.d, in.align, in.sort)
   /\ (Emit => PrintT(ToJson([op |-> in.op, in |-> in, out |-> out'])))
-Next == ChooseArrays \/ ChooseOp \/ Apply
+Next == ChooseArrays \/ ChooseArrays3 \/ ChooseOp \/ Apply
 Spec == Init /\ [][Next]_vars
 
 (* ---------- theorems ---------- *)
